@@ -540,7 +540,8 @@ class ExtendedIndexedOperand(Operand):
         if "S" in self.right:
             raw_post_byte |= 0x60
 
-        if self.left == "" or (type(self.left) != str and self.left.is_numeric() and self.left.int == 0):
+        if self.left == "" or (type(self.left) != str and self.left.is_numeric() and self.left.int == 0
+                               and "PCR" not in self.right):
             if "-" in self.right or "+" in self.right:
                 if self.right == "X+" or self.right == "Y+" or self.right == "U+" or self.right == "S+":
                     raise OperandTypeError("[{}] not allowed as an extended indirect value".format(self.right))
@@ -585,9 +586,10 @@ class ExtendedIndexedOperand(Operand):
                     post_byte_choices = [0x9C, 0x9D]
                     max_size += 2
                 else:
-                    size += 2 if self.left.is_extended() else 1
+                    wide = self.left.is_extended() or not self.left.is_8_bit()
+                    size += 2 if wide else 1
                     max_size = size
-                    raw_post_byte |= 0x9D if self.left.is_extended() else 0x9C
+                    raw_post_byte |= 0x9D if wide else 0x9C
             else:
                 if additional.is_negative():
                     if additional.is_8_bit():
@@ -668,7 +670,8 @@ class IndexedOperand(Operand):
         if "S" in self.right:
             raw_post_byte |= 0x60
 
-        if self.left == "" or (type(self.left) != str and self.left.is_numeric() and self.left.int == 0):
+        if self.left == "" or (type(self.left) != str and self.left.is_numeric() and self.left.int == 0
+                               and "PCR" not in self.right):
             raw_post_byte |= 0x80
             if "-" in self.right or "+" in self.right:
                 if "+" in self.right:
@@ -713,9 +716,10 @@ class IndexedOperand(Operand):
                     post_byte_choices = [0x8C, 0x8D]
                     max_size += 2
                 else:
-                    size += 2 if self.left.is_extended() else 1
+                    wide = self.left.is_extended() or not self.left.is_8_bit()
+                    size += 2 if wide else 1
                     max_size = size
-                    raw_post_byte |= 0x8D if self.left.is_extended() else 0x8C
+                    raw_post_byte |= 0x8D if wide else 0x8C
             else:
                 if additional.is_negative():
                     if additional.is_4_bit():
